@@ -187,9 +187,9 @@ FS_NOTE = "FileSink.Process / Reopen / reopen / open / rotate / pruneFiles / fil
 PROPS["C08"] = dict(
     level="other",
     explanation=FS_NOTE + "Assertions: an acknowledged event is appended exactly once and contiguously to the file the sink holds; existing files keep their content; only the oldest rotated files are removed and only under a retention limit; foreign files untouched; Reopen after an external rename keeps the renamed inode intact and starts a fresh file. Plus histories of H operations (write / Reopen / external rename + Reopen) from an empty directory: the files read oldest to newest hold exactly the acknowledged sequence, or a suffix of it under a retention limit (H_C08_history); two concurrent writers (H_C08_concurrent_writers); a directory created on demand and the default mode (H_C15_fresh_directory).",
-    jobs=[dict(harness=BROKER_H, entries=r"^H_C08_(Process|Reopen|history)$|^H_C15_fresh_directory$", params=dict(quick=dict(R=2, FAULTS=0, H=4), thorough=dict(R=3, FAULTS=0, H=5)), shards=dict(quick=16, thorough=16), instrument_clock=True),
+    jobs=[dict(harness=BROKER_H, entries=r"^H_C08_(Process|Reopen|history)$|^H_C15_fresh_directory$|^H_C15_file_names$", params=dict(quick=dict(R=2, FAULTS=0, H=4), thorough=dict(R=3, FAULTS=0, H=5)), shards=dict(quick=16, thorough=16), instrument_clock=True),
           dict(harness=BROKER_H, entries=r"^H_C08_concurrent_writers$", params=dict(quick={}, thorough={}), shards=dict(quick=4, thorough=8), maxswitches=dict(quick=3, thorough=5), instrument_locks=True)],
-    must_reach=["C08.concurrent.end", "C08.history.end", "C15.fresh-directory.end", "C08.process.norotate", "C08.process.rotated", "C08.process.opened", "C08.reopen.renamed", "C08.reopen.plain"],
+    must_reach=["C08.concurrent.end", "C08.history.end", "C15.fresh-directory.end", "C15.file-names.end", "C08.process.norotate", "C08.process.rotated", "C08.process.opened", "C08.reopen.renamed", "C08.reopen.plain"],
     bounds=dict(quick="<=2 rotated files + active + 2 foreign files; one operation from an arbitrary state (inductive step); histories of 4 operations (write / Reopen / external rename + Reopen) from an empty directory, MaxFiles 0..2, any MaxBytes / MaxDuration / clock", thorough="<=3 rotated files; histories of 5 operations"),
     assumptions=["A-write: one write(2) on an O_APPEND descriptor is all-or-nothing, also under SIGKILL (partial writes and kernel crash behaviour are outside the claim)", "A-19digits: timestamps print with the same number of digits", "the clock is non-decreasing and strictly increasing between two file creations", "A-umask: the process umask is 022 (files get the configured mode only through the sink's explicit chmod)", "concurrent writers: every access happens with FileSink.l held (lockset in C19)"],
     trusted_base=COMMON_TRUST + ["ghost file system contracts (engine/symex/fsmodel.go)"],
